@@ -147,7 +147,15 @@ func (l *Lexer) bracesToken(tok token.TokenType, literal string) token.Token {
 
 func (l *Lexer) illegalToken() token.Token {
 	l.tokenBegins()
-	return l.newToken(token.ILLEGAL, string(l.char))
+
+	tok := l.newToken(token.ILLEGAL, string(l.char))
+
+	// the illegal character is not consumed, it is
+	// the first and the last character of the token
+	tok.Pos.EndCol = tok.Pos.StartCol
+	tok.Pos.EndLine = tok.Pos.StartLine
+
+	return tok
 }
 
 func (l *Lexer) directiveToken() token.Token {
